@@ -267,6 +267,10 @@ class WaitConnAck(State):
             else:
                 self.event_initiator_rcv_conn_nack()
 
+            #: The state has been left: whatever has been received meanwhile 
+            #: (a quick CEA, for instance) belongs to the next state.
+            return
+
         if self.has_recv_queue_message():
             self.msg = self.get_message()
 
